@@ -17,6 +17,7 @@ pub mod c10;
 pub mod c11;
 pub mod c12;
 pub mod c13;
+pub mod c14;
 pub mod c16;
 pub mod c17;
 pub mod c18;
@@ -37,6 +38,7 @@ pub fn run(prop: &str, tier: &str) -> ! {
 		"C11" => c11::run(tier),
 		"C12" => c12::run(tier),
 		"C13" => c13::run(tier),
+		"C14" => c14::run(tier),
 		"C16" => c16::run(tier),
 		"C17" => c17::run(tier),
 		"C18" => c18::run(tier),
